@@ -1,5 +1,6 @@
 import TsVerif.C20.Model
 import TsVerif.C20.Format
+import TsVerif.C20.SimpleDec
 /-!
 # C20 judge — the property's clauses decided on the REAL files and the REAL `parse_tests` results
 
@@ -72,30 +73,67 @@ def sexpLike (s : Str) : Bool := s.isEmpty || sexpLikeAux s 0
 def dedup (xs : List String) : List String :=
   xs.foldl (fun acc x => if acc.contains x then acc else acc ++ [x]) []
 
+/-- The updater the property describes (all repairs): used only to say which corrections a correct `--update`
+would write for the tests of a file — independent of the variant of the code under test. -/
+def fxSpec : Fixes :=
+  { keepUnrun := true, oneCorrection := true, keepSuffixPreamble := true, quoteReset := true, keepCstFiltered := true }
+
+/-- The corrections a correct update writes for these tests (`none`: the run stops before writing). -/
+def specCorrections (j : JudgeIn) : Option (List Correction) := updateEntriesF fxSpec j.orc j.flt j.ent0 []
+
+/-- Well-formedness of the FILE for the preservation clauses ("on any well-formed corpus file"): its tests,
+written in the writer's canonical form (leading text, the file's suffix, the delimiter lengths of each test),
+are delimited unambiguously — by the reader's specification (`parseFile`) they read back as the same tests
+with the same names, attribute text, inputs and delimiter lengths.  A file fails this only when a line of
+an input or of an expectation to be written is itself a delimiter line of this file (e.g. a `:cst`
+expectation `--------` as long as its divider).  `roundtrip_built`: implied by `SimpleS` of the corrections
+(measured: `simples ⇒ canon` is asserted by the check on every real case). -/
+def canonB (j : JudgeIn) : Bool :=
+  match specCorrections j with
+  | none => true
+  | some cs =>
+    let suf := (firstSuffix (splitIncl j.orig)).getD []
+    (parseFile j.os (preamble j.os j.orig ++ writeTests suf cs)).map Entry.dkey == cs.map Correction.dkey
+
+/-- The syntactic hypothesis of `update_preserves_general` / `update_idempotent_general` on this file. -/
+def simplesB (j : JudgeIn) : Bool :=
+  match specCorrections j with
+  | none => true
+  | some cs => simpleSAll ((firstSuffix (splitIncl j.orig)).getD []) cs
+
 /-- Failed clauses (empty = the property holds on this case). -/
 def judge (j : JudgeIn) : List String :=
-  let pres := dedup (classify j.ent0 j.ent1)
+  let canon := canonB j
+  -- READING: the tests the real reader returned are the ones delimited in the file by the specification of a
+  -- delimiter line (a run of ≥ 3 `=` / `-`, then EXACTLY the file's suffix, then the line ending): same names,
+  -- attribute text, flags, inputs, in the same order
+  let read := if (parseFile j.os j.orig).map Entry.key != j.ent0.map Entry.key then ["read-differs"] else []
+  let pres := if canon then dedup (classify j.ent0 j.ent1) else []
   let lines0 := splitIncl j.orig
   let lines1 := splitIncl j.after1
   -- a suffixed file must not gain suffix-less `===` lines: the new file has, for each length, at most as many
   -- `===` lines without suffix as the old file (there it was inside an input or expectation)
-  let bare (ls : List Str) : List Nat := ls.filterMap fun l => match parseDelimLine l '=' with
-    | some (n, []) => some n
+  -- (a `===` line followed only by white space counts as suffix-less on both sides: writing an expectation back
+  -- trims it)
+  let bare (old : Bool) (ls : List Str) : List Nat := ls.filterMap fun l =>
+    match parseDelimLine (if old then trimStart l else l) '=' with
+    | some (n, s) => if (trim s).isEmpty then some n else none
     | _ => none
-  let suffix := if j.wrote1 && (firstSuffix lines0).isSome && !((bare lines1).all fun n => (bare lines1).count n ≤ (bare lines0).count n) then ["suffix-lost"] else []
-  let pre := if !j.ent1.isEmpty && preamble j.os j.orig != preamble j.os j.after1 then ["preamble-deleted"] else []
+  -- (old side: white space in front of the run is ignored too — a `:cst` expectation is trimmed when written back)
+  let suffix := if canon && j.wrote1 && (firstSuffix lines0).isSome && !((bare false lines1).all fun n => (bare false lines1).count n ≤ (bare true lines0).count n) then ["suffix-lost"] else []
+  let pre := if canon && !j.ent1.isEmpty && preamble j.os j.orig != preamble j.os j.after1 then ["preamble-deleted"] else []
   let wf := j.ent0.all fun e => e.attrs.cst || sexpLike e.output
   -- only tests that the filter lets run are updated, hence required to pass
-  let passes := if j.wrote1 && !(j.ent1.all fun e => !j.flt e.name || entryPasses j.orc e) then ["passes"] else []
+  let passes := if canon && j.wrote1 && !(j.ent1.all fun e => !j.flt e.name || entryPasses j.orc e) then ["passes"] else []
   -- delimiter lengths are not expected outputs: they stay
-  let delims := if pres.isEmpty && j.ent0.length == j.ent1.length &&
+  let delims := if canon && pres.isEmpty && j.ent0.length == j.ent1.length &&
       !((j.ent0.zip j.ent1).all fun (a, b) => a.hlen == b.hlen && a.dlen == b.dlen) then ["delims-changed"] else []
   -- a test the filter excludes from the run keeps its (well-formed) expectation
-  let keep := if pres.isEmpty && j.ent0.length == j.ent1.length &&
+  let keep := if canon && pres.isEmpty && j.ent0.length == j.ent1.length &&
       !((j.ent0.zip j.ent1).all fun (a, b) => j.flt a.name || !(a.attrs.cst || a.output.isEmpty || inFormatClass a.output) || a.output == b.output)
     then ["filtered-expectation-changed"] else []
-  let idem := if wf && j.after2 != j.after1 then ["idempotent"] else []
+  let idem := if wf && canon && j.after2 != j.after1 then ["idempotent"] else []
   let fmt := if j.sexps.all (fun s => normalizeSexp (trim (formatSexp j.fx s)) == s) then [] else ["format-normalize"]
-  pres ++ suffix ++ pre ++ delims ++ keep ++ passes ++ idem ++ fmt
+  read ++ pres ++ suffix ++ pre ++ delims ++ keep ++ passes ++ idem ++ fmt
 
 end TsVerif.C20
